@@ -80,3 +80,25 @@ impl Uuid {
 // `err.to_string()` / `format!(..)`: an unconstrained message
 #[verifier::external_body]
 pub fn vf_format() -> (r: String) { unimplemented!() }
+// ---- the remaining text decoders of ser.rs
+// `s.split(':').collect::<Vec<&str>>()`: the pieces between colons (at least one piece)
+pub uninterp spec fn spec_split_colon(s: String) -> Seq<String>;
+pub uninterp spec fn spec_str_of(s: &str) -> String;
+#[verifier::external_body]
+pub fn vf_split_colon(s: &String) -> (r: Vec<&str>)
+    ensures r@.len() == spec_split_colon(*s).len(), r@.len() >= 1, forall|i: int| 0 <= i < r@.len() ==> spec_str_of(#[trigger] r@[i]) == spec_split_colon(*s)[i]
+{ unimplemented!() }
+// u16::from_str_radix(text, 10)
+#[verifier::external_type_specification]
+#[verifier::external_body]
+pub struct ExParseIntError(core::num::ParseIntError);
+pub uninterp spec fn spec_u16_dec(s: String) -> Option<u16>;
+pub assume_specification [u16::from_str_radix] (src: &str, radix: u32) -> (r: Result<u16, core::num::ParseIntError>)
+    ensures radix == 10 ==> ((r matches Ok(v) ==> spec_u16_dec(spec_str_of(src)) == Some(v)) && (r is Err ==> spec_u16_dec(spec_str_of(src)) is None));
+// util::OnionV3Address::try_from(&str) (verified in unit util_ov3): a total function of the text
+pub struct OnionV3Address { pub k: [u8; 32] }
+pub struct OnionV3AddressError { pub c: u8 }
+pub uninterp spec fn spec_onion_parse(s: String) -> Option<OnionV3Address>;
+#[verifier::external_body]
+pub fn vf_onion_try_from(s: &String) -> (r: Result<OnionV3Address, OnionV3AddressError>)
+    ensures r matches Ok(a) ==> spec_onion_parse(*s) == Some(a), r is Err ==> spec_onion_parse(*s) is None { unimplemented!() }
